@@ -64,6 +64,11 @@ def faults(rng, enum_ctrls, letters, spec=None, enum=None, g=None):
             break
     body = bytes(rng.randrange(256) for _ in range(rng.randint(0, 4)))
     fs.append(("foreign", bytes(c) + bytes([len(body)]) + body))
+    # an acknowledgement (80 00) where a reply is expected, bare and with a body: outside every reply set
+    fs.append(("ack-as-reply", bytes([0x80, 0x00, 0x00])))
+    fs.append(("ack-as-reply", bytes([0x80, 0x00, len(body)]) + body))
+    # a well-formed reply of this very command where the ACKNOWLEDGEMENT is expected (used at the ack position only)
+    fs.append(("reply-at-ack", rng.choice(letters)[0]))
     # malformed body: a known control field with a body that cannot be decoded (TLV container announcing more than present)
     cands = []
     for v in enum["variants"]:
@@ -135,6 +140,8 @@ def run(ctx, out):
             positions = (["ack"] if not pre else []) + ["after"]
             for pos in positions:
                 for kind, fb in faults(rng, ctrls, letters, spec, enum, g):
+                    if (kind == "ack-as-reply" and pos == "ack") or (kind == "reply-at-ack" and pos != "ack"):
+                        continue          # at the acknowledgement position 80 00 IS the expected packet; a reply at a reply position is no fault
                     if pos == "ack":
                         items = [] if fb is None else [fb]
                         good = []
@@ -172,7 +179,7 @@ def run(ctx, out):
         if why:
             out.oracle_failures.append({"op": o[:400], "observed": r[:500], "expected": " / ".join(pre) + " / [r:n] / e:<kind> / end", "key": o[:200],
                                         "what": f"{o.split()[1]} with fault {kd}: {why}"})
-    out.rule = (f"all {len(spec['sequences'])} exchanges x valid reply prefixes up to depth {depth - 1} x fault kinds (NACK 84xx, foreign control field, undecodable body — a tag without value, or all tagged fields present and one repeated at the end —, truncated packet + close, EOF; half of the runs with every read of the client limited to 1, 2 or 5 bytes) "
+    out.rule = (f"all {len(spec['sequences'])} exchanges x valid reply prefixes up to depth {depth - 1} x fault kinds (NACK 84xx, foreign control field, an acknowledgement 80 00 at a reply position, a valid reply at the acknowledgement position, undecodable body — a tag without value, or all tagged fields present and one repeated at the end —, truncated packet + close, EOF; half of the runs with every read of the client limited to 1, 2 or 5 bytes) "
                 "instead of the acknowledgement and at every later position, optionally with more data queued behind the fault; oracle on the implementation's event log: exactly one error, nothing but `end` after it, "
                 "no write after the failure, every 80 00 00 pairs with a yielded packet (the faulty packet is not acknowledged), valid prefix processed normally; implementation = model. non-trivial = distinct (sequence, prefix, fault)")
     out.samples = [ops[0][:300], {"op": ops[len(ops)//2][:200], "impl": impl[len(ops)//2][:300]}]
